@@ -39,6 +39,22 @@ pub fn json_bytes(v: &Value) -> Vec<u8> {
         Value::Array(a) => a.iter().map(|x| x.as_u64().expect("byte") as u8).collect(),
         // TLC serialises the empty sequence as an empty array, but be liberal
         Value::Object(o) if o.is_empty() => vec![],
+        // run-length form for nesting probes: head ++ pre^n ++ core ++ suf^n ++ tail
+        Value::Object(o) if o.contains_key("n") => {
+            let part = |k: &str| o.get(k).map(json_bytes).unwrap_or_default();
+            let n = o["n"].as_u64().expect("n") as usize;
+            let mut out = part("head");
+            let (pre, suf) = (part("pre"), part("suf"));
+            for _ in 0..n {
+                out.extend_from_slice(&pre);
+            }
+            out.extend(part("core"));
+            for _ in 0..n {
+                out.extend_from_slice(&suf);
+            }
+            out.extend(part("tail"));
+            out
+        }
         Value::Null => vec![],
         _ => panic!("bytes expected, got {v}"),
     }
